@@ -234,8 +234,9 @@ CHECKS["C15"] = dict(
     level_text="33 scenarios ({plain, gzip, xz} x {first name a symbolic link to /dev/null, then a rotation to an ordinary name; single output closed by destruction; three rotations with and without export; rotation onto a name that already holds an older complete file; rotation back onto the first name; destruction with buffered but unwritten data; destruction with nothing written; high-entropy records (the compressor holds several KB at close, finishing takes several passes); stale '.part' files left by a dead run}), records of 3 KB so that blocks span several encoder flushes and the ofstream buffer spills mid-block. A trace run records the K output calls; for every k in 1..K a forked child runs the scenario and _exits immediately before its k-th call; afterwards every directory entry not ending in .part must be byte-identical to one of the complete versions that name legitimately holds (the pre-existing file or a closed output of the uninterrupted run, each validated as a complete stream and valid C-DNS file). The trace run also checks that every data write targets a *.part path.",
     level_note="Crash model = process death between system calls (the property's model); no power loss / page cache reasoning. Trusted: path of a descriptor read from /proc/self/fd at call time; write/writev/rename are the only output calls libstdc++ and the library issue (verified by the trace containing all bytes).",
     stages=[dict(harness="fault", variant="plain", args=["--mode", "crash"], link=["-rdynamic"], require=["gz_finish_multipass", "xz_finish_multipass"]),
-            dict(harness="val", variant="asan", args=["--mode", "align", "--named", "1"], prefix="named_")],
-    rule="named-output alignment sweep (no crash, the k = K+1 case of every size): a padding string of every length 0..2100 (thorough 0..4199) x {plain, gzip} moves the end of a rotated and of a destroyed output across every position of the encoder's 2 KiB staging buffer; what is visible under the final names must be complete valid files (closing break included), nothing else may be left in the directory. (scenario, k) pairs enumerated exhaustively; a run is non-trivial when the child really stopped at call k (exit code 77), otherwise it is reported as a harness error",
+            dict(harness="val", variant="asan", args=["--mode", "align", "--named", "1"], prefix="named_"),
+            dict(harness="comp", variant="plain", args=["--mode", "export-wellformed"], prefix="bigz_", require=["export_runs", "export_records_validated"])],   # outputs large enough for the codecs to emit while data still arrives: what carries the final name must be a complete valid document
+    rule="large compressed outputs (no crash): end-to-end exports of 3000 / 25000 (/ 60000) records x {gzip, xz} x {name, descriptor}, the finished file is decompressed and validated; named-output alignment sweep (no crash, the k = K+1 case of every size): a padding string of every length 0..2100 (thorough 0..4199) x {plain, gzip} moves the end of a rotated and of a destroyed output across every position of the encoder's 2 KiB staging buffer; what is visible under the final names must be complete valid files (closing break included), nothing else may be left in the directory. (scenario, k) pairs enumerated exhaustively; a run is non-trivial when the child really stopped at call k (exit code 77), otherwise it is reported as a harness error",
     bound_quick="all 33 scenarios, every k", bound_thorough="same (the space is small and fully covered in the quick tier)",
     assumptions=["tmpfs scratch directory"],
 )
